@@ -61,10 +61,21 @@ func (d *registryDriver) Next(w *World, step int) string {
 		if d.cfg.Keys {
 			d.settle = append(d.settle, "wait via=key:ka")
 		}
-		if rng.Intn(3) != 0 {
+		switch rng.Intn(4) {
+		case 0, 1:
 			t := &regTunnel{n: 0, key: "ka", gone: true}
 			d.tunnels = append(d.tunnels, t)
 			d.settle = append(d.settle, "open t=0 md=key=ka peer=p0", []string{"ctxend t=0", "fail t=0"}[rng.Intn(2)])
+		case 2:
+			// a tunnel that dies between its two registrations (all tunnels / per key): the handler
+			// is held at the hook between them, the tunnel is ended, the handler goes on
+			t := &regTunnel{n: 0, key: "ka", gone: true}
+			d.tunnels = append(d.tunnels, t)
+			d.settle = append(d.settle, "holdreg", "open t=0 md=key=ka peer=p0", "ds t=0", "dc t=0", "ds t=0",
+				[]string{"ctxend t=0", "fail t=0", "stop"}[rng.Intn(3)], "dc t=0", "ds t=0", "releasereg", "probe", "ready via=multi")
+			if d.cfg.Keys {
+				d.settle = append(d.settle, "ready via=key:ka")
+			}
 		}
 	}
 	if len(d.settle) > 0 {
